@@ -115,11 +115,11 @@ theorem handlePendingTasks_nok {N : List String} (s : Sys) (jo : JobObj) (rj : J
         (try simp only)
         exact ite_some_none_nok ok (markDeleted_nok rj _ _ (fun r => rfl) h)
 
-theorem handleKillJob_nok {N : List String} (s : Sys) (rj : Job) (tasks : List Task) (h : NOK N rj) :
-    OutNOK N (handleKillJob s rj tasks).2 := by
+theorem handleKillJob_nok {N : List String} (s : Sys) (jo : JobObj) (rj : Job) (tasks : List Task) (h : NOK N rj) :
+    OutNOK N (handleKillJob s jo rj tasks).2 := by
   unfold handleKillJob
   split
-  · exact some_nok h
+  · split <;> exact some_nok h
   · (try simp only)
     split
     · exact some_nok h
@@ -251,8 +251,8 @@ theorem syncJobTasks_nok {j0 : JobObj} (s : Sys) (jo : JobObj) (hwf : WF2 j0 s.d
     | none => (try simp only); intro _ h; cases h
     | some rj3 =>
       (try simp only)
-      have h4 := handleKillJob_nok s3 rj3 tasks1 (h3 rj3 rfl)
-      generalize handleKillJob s3 rj3 tasks1 = r4 at h4 ⊢
+      have h4 := handleKillJob_nok s3 jo rj3 tasks1 (h3 rj3 rfl)
+      generalize handleKillJob s3 jo rj3 tasks1 = r4 at h4 ⊢
       obtain ⟨s4, o4⟩ := r4
       cases o4 with
       | none => (try simp only); intro _ h; cases h
@@ -282,7 +282,8 @@ theorem tasksForRefsConfirmed_names (s : Sys) (refs : List TaskRef) :
   have := getTaskForRefConfirmed_ok hg
   exact ⟨this.1, by rw [this.2]; exact List.mem_map_of_mem hr⟩
 
-theorem handleFinalizer_nok {N : List String} (s : Sys) (jo : JobObj) (rj : Job) (fz : Bool) (h : NOK N rj) :
+theorem handleFinalizer_nok {N : List String} (s : Sys) (jo : JobObj) (rj : Job) (fz : Bool) (h : NOK N rj)
+    (hc : ∀ n ∈ podNames s.podCache, n ∈ N) :
     ∀ rj1 fz1, (handleFinalizer s jo rj fz).2 = some (rj1, fz1) → NOK N rj1 := by
   intro rj1 fz1
   unfold handleFinalizer
@@ -291,18 +292,20 @@ theorem handleFinalizer_nok {N : List String} (s : Sys) (jo : JobObj) (rj : Job)
   · split
     · intro hh; cases hh; exact h
     · (try simp only)
-      have hT : ∀ t ∈ tasksForRefsConfirmed s rj.status.tasks, TaskOK t ∧ t.name ∈ N := by
+      have hT : ∀ t ∈ finalizerTasks s jo rj, TaskOK t ∧ t.name ∈ N := by
+        unfold finalizerTasks
+        refine adoptUnrecordedTasks_names s _ _ N ?_ hc
         intro t ht
         have := tasksForRefsConfirmed_names s rj.status.tasks t ht
         exact ⟨this.1, h _ this.2⟩
       split
-      · have h1 := updateTaskRefStatus_nok s (jobKey jo) _ (tasksForRefsConfirmed s rj.status.tasks)
+      · have h1 := updateTaskRefStatus_nok s (jobKey jo) _ (finalizerTasks s jo rj)
           (foldl_deletedStatus_nok (N := N) { state := .terminated, result := .killed, reason := "JobDeleted" }
-            (tasksForRefsConfirmed s rj.status.tasks) rj h) hT
-        generalize updateTaskRefStatus s (jobKey jo) _ (tasksForRefsConfirmed s rj.status.tasks) = r1 at h1 ⊢
+            (finalizerTasks s jo rj) rj h) hT
+        generalize updateTaskRefStatus s (jobKey jo) _ (finalizerTasks s jo rj) = r1 at h1 ⊢
         obtain ⟨s1, rj2⟩ := r1
         (try simp only)
-        generalize deleteTasks s1 (tasksForRefsConfirmed s rj.status.tasks) false = r2
+        generalize deleteTasks s1 (finalizerTasks s jo rj) false = r2
         obtain ⟨s2, ok⟩ := r2
         (try simp only)
         intro hh
@@ -334,24 +337,35 @@ theorem sync_nok {j0 : JobObj} (s : Sys) (jo : JobObj) (hwf : WF2 j0 s.d) (hp : 
       simp only [Bool.and_eq_true, Bool.not_eq_true'] at hc
       exact syncJobTasks_nok s jo hwf hp hjo hg hc.1 hc.2
     · exact some_nok hjoN
+  have hm1 : Micros jo s s (if (isStarted jo.job && !isDeleted jo.job) = true then syncJobTasks s jo jo.job
+      else (s, some jo.job)).1 := by
+    split
+    · rename_i hc
+      simp only [Bool.and_eq_true, Bool.not_eq_true'] at hc
+      exact (syncJobTasks_spec s jo s hc.1 hc.2 (CreatePhase.refl _)).1
+    · exact .refl s
   generalize (if (isStarted jo.job && !isDeleted jo.job) = true then syncJobTasks s jo jo.job
-      else (s, some jo.job)) = r1 at h1 ⊢
+      else (s, some jo.job)) = r1 at h1 hm1 ⊢
   obtain ⟨s1, o1⟩ := r1
   cases o1 with
   | none => (try simp only); exact hjoN
   | some rj1 =>
     (try simp only)
     have h2 := syncJobStatusFromTaskRefs_nok s1 (jobKey jo) rj1 (h1 rj1 rfl)
-    generalize syncJobStatusFromTaskRefs s1 (jobKey jo) rj1 = r2 at h2 ⊢
+    have hf2 := (syncJobStatusFromTaskRefs_spec s1 (jobKey jo) rj1).1
+    generalize syncJobStatusFromTaskRefs s1 (jobKey jo) rj1 = r2 at h2 hf2 ⊢
     obtain ⟨s2, rj2⟩ := r2
-    (try simp only at h2 ⊢)
-    generalize handleTTL s2 jo rj2 = r3
+    (try simp only at h2 hf2 ⊢)
+    have hm3 := handleTTL_micros s2 jo s rj2
+    generalize handleTTL s2 jo rj2 = r3 at hm3 ⊢
     obtain ⟨s3, ok3⟩ := r3
     cases ok3 with
     | false => (try simp only); exact h2
     | true =>
       (try simp only)
+      have hc3 : s3.podCache = s.podCache := ((hm1.trans (.frame hf2)).trans hm3).static.podCache
       have h4 := handleFinalizer_nok s3 jo rj2 jo.finalizer h2
+        (fun n hn => mem_allowed_cache (by rw [← hc3]; exact hn))
       generalize handleFinalizer s3 jo rj2 jo.finalizer = r4 at h4 ⊢
       obtain ⟨s4, o4⟩ := r4
       cases o4 with
